@@ -456,7 +456,7 @@ func (vc *VC) inlineCall(st *State, call ast.Node, pi *PkgInfo, ftype *ast.FuncT
 	guardTerm := smtAnd(vc.guards...)
 	vc.guards = nil
 	if guardTerm != "true" {
-		work.assume(guardTerm)
+		work.assumeGuard(guardTerm)
 	}
 	n2 := len(work.pc)
 	outs := vc.execBlock(work, body.List)
@@ -511,7 +511,7 @@ func (vc *VC) inlineCall(st *State, call ast.Node, pi *PkgInfo, ftype *ast.FuncT
 	if guardTerm != "true" {
 		// the skipped alternative: state unchanged, results unconstrained (never used under !guard)
 		skip := st.clone()
-		skip.assume(smtNot(guardTerm))
+		skip.assumeGuard(smtNot(guardTerm))
 		for i, T := range fr.types {
 			skip.env[resObjs[i]] = vc.zeroValue(T)
 		}
